@@ -83,7 +83,7 @@ fn main() {
             if tier != "quick" && tier != "thorough" {
                 usage();
             }
-            let hang_limit = std::env::var("HCSIM_HANG_S").ok().and_then(|s| s.parse().ok()).unwrap_or(120);
+            let hang_limit = std::env::var("HCSIM_HANG_S").ok().and_then(|s| s.parse().ok()).unwrap_or(40);
             exec::start_watchdog(workers, hang_limit, on_timeout);
             let opts = RunOpts {
                 prop: prop.clone(),
@@ -104,7 +104,7 @@ fn main() {
             }
             let quiet = args.iter().any(|a| a == "--quiet");
             std::env::set_var("HCSIM_REPLAY_MODE", "1");
-            let hang_limit = std::env::var("HCSIM_HANG_S").ok().and_then(|s| s.parse().ok()).unwrap_or(120);
+            let hang_limit = std::env::var("HCSIM_HANG_S").ok().and_then(|s| s.parse().ok()).unwrap_or(40);
             exec::start_watchdog(1, hang_limit, on_timeout);
             exec::set_worker(0);
             let (rf, out, same) = harness::replay(&args[2]);
